@@ -1,5 +1,5 @@
 """C08 -- barriers release nobody early and everybody once the last waiter arrives."""
-from vr import Obl
+from vr import Obl, deepen
 
 META = {
     "explanation": "E2: ABT_barrier_wait as focus (ULT and external-thread caller) with n in 1..3 symbolic, a caller possibly parked already, the last arrival "
@@ -27,6 +27,7 @@ def obligations(tier):
     o.append(Obl("create_reinit_xstream", "C08/misc.c", "ABT_barrier_create/reinit/get_num_waiters/free for EVERY uint32 count pair (reinit larger, smaller, zero) and ABT_xstream_barrier_create/wait/free wrapper over the native barrier",
                  unwind=3, backend="cadical", encodes=["ABT_barrier_create", "ABT_barrier_reinit", "ABT_barrier_get_num_waiters", "ABT_barrier_free", "ABT_xstream_barrier_create", "ABT_xstream_barrier_wait", "ABT_xstream_barrier_free"],
                  bounds="single call sequence; counts: any uint32", symbolic="waiter counts"))
+    o += deepen([x for x in o if x.hooks], tier)
     return o
 
 MANIFEST_ENTRY = {
